@@ -17,6 +17,9 @@ class DependencyChartLayout:
         for a dependency chart layout based on the provided graph data.
         """
 
+        # coordinates of a graph laid out earlier on this instance do not belong to this graph
+        self.node_coordinates = {}
+
         # Layout is based on the depth of each node relative to the rightmost exit node
         exit_nodes = self._find_exit_nodes(node_ids, edge_tuples)
         self._calculate_node_depths(exit_nodes, edge_dict)
